@@ -12,9 +12,10 @@
 #include <stdlib.h>
 #include <errno.h>
 
-static int resolve_link(fstree_t *fs, tree_node_t *node)
+static int resolve_link(fstree_t *fs, tree_node_t *node, size_t max_hops)
 {
 	tree_node_t *start = node;
+	size_t hops = 0;
 
 	for (;;) {
 		if (!S_ISLNK(node->mode) || !(node->flags & FLAG_LINK_IS_HARD))
@@ -23,6 +24,14 @@ static int resolve_link(fstree_t *fs, tree_node_t *node)
 		if (node->flags & FLAG_LINK_RESOVED) {
 			node = node->data.target_node;
 		} else {
+			/* A chain of unresolved links cannot be longer than
+			   the list of unresolved links, unless it is a cycle
+			   (one that does not need to contain the start) */
+			if (hops++ >= max_hops) {
+				errno = EMLINK;
+				return -1;
+			}
+
 			node = fstree_get_node_by_path(fs, fs->root,
 						       node->data.target,
 						       false, false);
@@ -55,10 +64,16 @@ static int resolve_link(fstree_t *fs, tree_node_t *node)
 
 int fstree_resolve_hard_links(fstree_t *fs)
 {
+	size_t count = 0;
+	tree_node_t *it;
+
+	for (it = fs->links_unresolved; it != NULL; it = it->next_by_type)
+		++count;
+
 	while (fs->links_unresolved != NULL) {
 		tree_node_t *n = fs->links_unresolved;
 
-		if (resolve_link(fs, n)) {
+		if (resolve_link(fs, n, count)) {
 			char *path = fstree_get_path(n);
 			fprintf(stderr,
 				"Resolving hard link '%s' -> '%s': %s\n",
